@@ -287,10 +287,6 @@ Proof.
 Qed.
 
 (* ---- non-vacuity: a concrete idempotent conversion and a scope with a case collision ---------- *)
-Definition lower_ascii (c : ascii) : ascii :=
-  let n := nat_of_ascii c in if ((65 <=? n) && (n <=? 90))%nat then ascii_of_nat (n + 32) else c.
-Fixpoint lower (s : string) : string :=
-  match s with EmptyString => EmptyString | String c r => String (lower_ascii c) (lower r) end.
 Definition conv_toy (_ : kind) (s : string) : string := lower s.
 
 Lemma lower_ascii_idem c : lower_ascii (lower_ascii c) = lower_ascii c.
